@@ -3,6 +3,7 @@ package openapi
 import (
 	"context"
 	"fmt"
+	"net/url"
 	"regexp"
 	"sort"
 	"strings"
@@ -423,13 +424,24 @@ func (g *generator) getDiscriminator(schema *openapi3.Schema) (string, map[strin
 	return name, mapping
 }
 
+// unescapeReferenceToken decodes one token of a reference: percent-encoding
+// first (the reference is a URI), then the JSON Pointer escapes.
+func unescapeReferenceToken(token string) string {
+	if unescaped, err := url.PathUnescape(token); err == nil {
+		token = unescaped
+	}
+
+	return strings.NewReplacer("~1", "/", "~0", "~").Replace(token)
+}
+
 func (g *generator) getRefName(value string) (string, string) {
 	// references into another file: `./refs/refs.json/#/components/schemas/A`, `../common.yml`, `common.yaml#/…`
 	rgx := regexp.MustCompile(`(\.\./)*(\w*/)*(.*)\.(json|ya?ml)($|[/#])`)
 	group := rgx.FindStringSubmatch(value)
 
+	// the last segment of a reference is a JSON Pointer token in a URI fragment: `My%2DType`, `in~1out`
 	parts := strings.Split(value, "/")
-	schemaName := parts[len(parts)-1]
+	schemaName := unescapeReferenceToken(parts[len(parts)-1])
 
 	// Reference in the same file
 	if len(group) == 0 {
